@@ -293,6 +293,35 @@ def rejections(rep: Report):
         except Exception:  # noqa: BLE001
             continue
         rep.violation({"constructor": name}, f"{name}: the constructor accepted an argument outside the constraint")
+    # the same value-dependent rejections with the object constructed inside jit (the argument is traced: a check whose
+    # result is not used would be dead code there).  Demanded only where the valid argument is accepted under jit.
+    jitted = {}
+    for fam in ("Normal", "LogNormal", "Gumbel", "Cauchy", "Laplace", "Logistic"):
+        jitted[f"{fam}(scale)"] = (lambda a, f=fam: getattr(ds, f)(0.0, a), "scale")
+    jitted["Affine(scale)"] = (lambda a: bj.Affine(0.0, a), "scale")
+    jitted["Scale"] = (lambda a: bj.Scale(a), "scale")
+    jitted["TriangularAffine(diag)"] = (lambda a: bj.TriangularAffine(jnp.zeros(2), jnp.diag(a) + jnp.asarray([[0.0, 0.0], [0.5, 0.0]])), "scale")
+    jitted["StudentT(scale)"] = (lambda a: ds.StudentT(3.0, 0.0, a), "scale")
+    jitted["StudentT(df)"] = (lambda a: ds.StudentT(a, 0.0, 1.0), "scale")
+    jitted["VmapMixture(weights)"] = (lambda a: ds.VmapMixture(eqx.filter_vmap(ds.Normal)(jnp.arange(2.0)), a), "scale")
+    jitted["Uniform(minval, maxval)"] = (lambda a: ds.Uniform(a[0], a[1]), "order")
+    for name, (ctor, kind) in jitted.items():
+        good = jnp.asarray([1.0, 2.0])
+        bads = [jnp.asarray([1.0, 0.0]), jnp.asarray([1.0, -1.0])] if kind == "scale" else [jnp.asarray([1.0, 1.0]), jnp.asarray([1.0, 0.5])]
+        f = eqx.filter_jit(ctor)
+        try:
+            jax.block_until_ready(jax.tree_util.tree_leaves(f(good)))
+        except Exception:  # noqa: BLE001    cannot be constructed under jit at all: nothing to demand
+            rep.add("constructors_not_jittable")
+            continue
+        for b_ in bads:
+            rep.count(1, ("reject-jit", name, str(np.asarray(b_).tolist())))
+            try:
+                jax.block_until_ready(jax.tree_util.tree_leaves(f(b_)))
+            except Exception:  # noqa: BLE001
+                continue
+            rep.violation({"constructor": name, "under": "jit", "argument": np.asarray(b_).tolist()},
+                          f"{name}: constructed inside jit, the argument {np.asarray(b_).tolist()} (outside the constraint) was accepted silently")
 
 
 def main():
